@@ -185,6 +185,98 @@ theorem flow_controller_rate_bound {u tsec fwd : Int} {n : Nat} {s : FC}
   rw [List.getElem?_eq_none (by simp)] at hb'
   simp at hb'
 
+theorem spaced_drop {t : Int} {n : Nat} {l : List Int} (hs : Spaced t n l) (k : Nat) :
+    Spaced t n (l.drop k) := by
+  intro i a b ha hb
+  rw [List.getElem?_drop] at ha hb
+  exact hs (k + i) a b ha (by rw [Nat.add_assoc]; exact hb)
+
+/-- in a non-decreasing list whose elements `n` apart are `≥ t` apart, any half-open
+interval `[x, x+t)` contains at most `n` elements -/
+theorem window_count_le {t : Int} {n : Nat} {l : List Int} (x : Int)
+    (hsort : l.Pairwise (· ≤ ·)) (hs : Spaced t n l) :
+    l.countP (fun a => decide (x ≤ a ∧ a < x + t)) ≤ n := by
+  -- split off the elements below x
+  have hsplit := List.takeWhile_append_dropWhile (p := fun a => decide (a < x)) (l := l)
+  have hcount : l.countP (fun a => decide (x ≤ a ∧ a < x + t)) =
+      (l.dropWhile (fun a => decide (a < x))).countP (fun a => decide (x ≤ a ∧ a < x + t)) := by
+    conv => lhs; rw [← hsplit]
+    rw [List.countP_append]
+    have : (l.takeWhile (fun a => decide (a < x))).countP (fun a => decide (x ≤ a ∧ a < x + t)) = 0 := by
+      rw [List.countP_eq_zero]
+      intro a ha
+      have hall := List.all_takeWhile (l := l) (p := fun a => decide (a < x))
+      have := List.all_eq_true.mp hall a ha
+      simp at this
+      simp; omega
+    omega
+  rw [hcount]
+  generalize hd : l.dropWhile (fun a => decide (a < x)) = d
+  have hdrop : d = l.drop (l.takeWhile (fun a => decide (a < x))).length := by
+    rw [← hd]
+    have h : l.drop (l.takeWhile (fun a => decide (a < x))).length =
+        (l.takeWhile (fun a => decide (a < x)) ++ l.dropWhile (fun a => decide (a < x))).drop
+          (l.takeWhile (fun a => decide (a < x))).length := by rw [hsplit]
+    rw [h, List.drop_left' rfl]
+  have hds : Spaced t n d := by rw [hdrop]; exact spaced_drop hs _
+  have hdsort : d.Pairwise (· ≤ ·) := by
+    rw [hdrop]; exact List.Pairwise.sublist (List.drop_sublist _ _) hsort
+  by_cases hlen : d.length ≤ n
+  · exact Nat.le_trans List.countP_le_length hlen
+  · have hlen' : n < d.length := by omega
+    cases d with
+    | nil => simp at hlen'
+    | cons d0 ds =>
+      have hd0 : x ≤ d0 := by
+        have hne : l.dropWhile (fun a => decide (a < x)) ≠ [] := by rw [hd]; simp
+        have := List.head_dropWhile_not (fun a => decide (a < x)) hne
+        simp [hd] at this
+        exact this
+      conv => lhs; rw [← List.take_append_drop n (d0 :: ds)]
+      rw [List.countP_append]
+      have h1 : ((d0 :: ds).take n).countP (fun a => decide (x ≤ a ∧ a < x + t)) ≤ n := by
+        refine Nat.le_trans List.countP_le_length ?_
+        simp; omega
+      have h2 : ((d0 :: ds).drop n).countP (fun a => decide (x ≤ a ∧ a < x + t)) = 0 := by
+        rw [List.countP_eq_zero]
+        intro b hb
+        obtain ⟨j, hj⟩ := List.getElem?_of_mem hb
+        rw [List.getElem?_drop] at hj
+        have hc : (d0 :: ds)[n]? = some ((d0 :: ds)[n]) := List.getElem?_eq_getElem hlen'
+        have hct : (d0 :: ds)[n] - d0 ≥ t := hds 0 d0 _ (by simp) (by simp)
+        have hjlt : n + j < (d0 :: ds).length := by
+          by_cases hge : n + j < (d0 :: ds).length
+          · exact hge
+          · rw [List.getElem?_eq_none (by omega)] at hj
+            simp at hj
+        rw [List.getElem?_eq_getElem hjlt] at hj
+        injection hj with hj
+        have hcb : (d0 :: ds)[n] ≤ b := by
+          by_cases hj0 : j = 0
+          · subst hj0; simp at hj; omega
+          · have hlt : n < n + j := by omega
+            have := List.pairwise_iff_getElem.mp hdsort n (n + j) hlen' hjlt hlt
+            omega
+        simp; omega
+      omega
+
+/-- **C19, rate bound (interval form).** With `check_and_update` only, no half-open
+interval `[x, x + t)` of length `t` — wherever it starts — contains more than `n`
+recorded admissions (the `n` virtual initial ones included). -/
+theorem flow_controller_no_window_exceeds_n {u tsec fwd : Int} {n : Nat} {s : FC}
+    (h : init u tsec n fwd = some s) (ops : List Op) (hm : Mono (-fwd * u) ops)
+    (hc : OnlyCau ops) (x : Int) :
+    (specRun (tsec * u) n (List.replicate n (-fwd * u)) ops).1.countP
+      (fun a => decide (x ≤ a ∧ a < x + tsec * u)) ≤ n := by
+  obtain ⟨inv, ht, hn⟩ := inv_init h
+  have hb : Below (List.replicate n (-fwd * u)) (-fwd * u) := by
+    intro a ha
+    rw [List.mem_replicate] at ha
+    omega
+  obtain ⟨s', _, inv'⟩ := run_refines ops inv hb hm
+  rw [ht, hn] at inv'
+  exact window_count_le x inv'.sorted (flow_controller_rate_bound h ops hm hc)
+
 /-! ### Unit independence: the tick-based controller agrees with the nanosecond one -/
 
 def scaleFC (k : Int) (s : FC) : FC :=
